@@ -1042,13 +1042,11 @@ def run_nsvirt(case):
                 init = RenderArgs(C, ns)
                 own_t = next((K for K in T.__mro__ if K in index and own[index[K]]), None)
                 base = init
-                if route == 0:
-                    r = RenderArgs(T, init)
-                elif route == 1 and own_t is not None:
+                if route == 1 and own_t is not None:
                     given = own_t.Args(5)
                     r = RenderArgs(T, init, given)
                 else:
-                    r = init.convert(T)
+                    r = RenderArgs(T, init)
             elif route == 0:
                 r = RenderArgs(T, ns)
             elif route == 1:
